@@ -33,11 +33,17 @@ def gen(rng, tier):
         focus.update(comps=True, facilities=True)
     if rng.random() < 0.3:
         focus["contention"] = "low"
-    return C.maybe_history(rng, C.forward_spec(rng, tier, focus), 0.25)
+    spec = C.gen_edit(rng, C.maybe_history(rng, C.forward_spec(rng, tier, focus), 0.25))
+    if spec.get("edit") is not None and rng.random() < 0.5:
+        spec["edit"] = sorted(set(spec["edit"]) | {0})
+    return spec
 
 
 def extra_candidates(spec):
-    return C.history_candidates(spec)
+    for c in C.history_candidates(spec):
+        yield c
+    for c in C.edit_candidates(spec):
+        yield c
 
 
 def close(a, b, exact):
@@ -218,4 +224,22 @@ def run(spec):
     res = C.base_result(tr)
     n = check_trace(res, tr)
     res.nontrivial = n >= 2
+    if spec.get("edit") and tr.out.ok:
+        # log edit: an inserted absence step is a step in which nothing works, so its remaining-work entry repeats the
+        # previous entry (the initial remaining work for a step inserted before the first step)
+        o, marks = C.apply_edit(tr, spec["edit"])
+        res.count("edit_runs")
+        if o.ok and len(marks) == len(tr.project.cost_list):
+            st = Static(tr.model)
+            for t in tr.ix.tasks:
+                rl = t.remaining_work_amount_record_list
+                for i, mk in enumerate(marks):
+                    if not mk or i >= len(rl):
+                        continue
+                    prev = rl[i - 1] if i > 0 else st.initial_remaining(t.ID)
+                    if not close(rl[i], prev, tr.exact):
+                        res.add("edit", "C02.after_insert_absence.inserted_step_changes_remaining_work.%s" % ("step0" if i == 0 else "inner"),
+                                "after insert_absence_time_list(%s): remaining work of %s at inserted index %d is %r, the entry before is %r"
+                                % (spec["edit"], t.ID, i, rl[i], prev), i)
+                        break
     return C.finish(res, tr)
